@@ -113,8 +113,13 @@ class HashFileDB(ObjectDB):
                 if verify:
                     self.check(o, check_hash=True)
                 self.protect(cache_path)
-            except (ObjectFormatError, FileNotFoundError):
+            except FileNotFoundError:
                 pass
+            except ObjectFormatError as exc:
+                # the freshly added object failed verification and was removed
+                if on_error is not None:
+                    transferred -= 1
+                    on_error(o, exc)
 
         self.state.save_many(
             (
